@@ -82,7 +82,14 @@ class C18(Check):
             ncuts = rng.choice([0, 0, 1, 2, 4])
             cuts = sorted(set(rng.randint(1, len(stream) - 1) for _ in range(ncuts)))
             late = [0] if (k >= 2 and i % 4 == 1) else []      # the first request's caller timed out; its reply arrives late, before the others
-            out.append({'kind': 'prop', 'docs': docs, 'filters': flts, 'cuts': cuts, 'ele': i % 3 == 0, 'late': late})
+            case = {'kind': 'prop', 'docs': docs, 'filters': flts, 'cuts': cuts, 'ele': i % 3 == 0, 'late': late}
+            if k >= 2 and cuts and not late and i % 3 == 2:
+                # the second request is ISSUED (public call) only after the first read has come in, i.e. possibly while the reply to the
+                # first one is half received
+                first_len = len((docs[0] + ']]>]]>').encode())
+                if cuts[0] < first_len:
+                    case['issue_at'] = {'1': 1}
+            out.append(case)
         # the BEGINNING of a reply trickling in: two to four cuts, all before or just after the '>' of the <rpc-reply …> start tag
         # (an XML declaration in a read of its own, a start tag with many namespace declarations cut several times)
         for i in range(90 if tier == 'quick' else 3000):
@@ -135,8 +142,9 @@ class C18(Check):
             r = run(True, [case['filter']], [(doc + ']]>]]>').encode()], as_element=case.get('ele', False))
             return {'reply': r['replies'][0], 'error': r['error']}
         stream, segs = self._segs(case)
-        r = run(True, case['filters'], segs, as_element=case.get('ele', False), timed_out=case.get('late', ()))
-        off = run(False, [None] * len(case['docs']), segs, timed_out=case.get('late', ()))
+        ia = {int(k): v for k, v in (case.get('issue_at') or {}).items()}
+        r = run(True, case['filters'], segs, as_element=case.get('ele', False), timed_out=case.get('late', ()), issue_at=ia)
+        off = run(False, [None] * len(case['docs']), segs, timed_out=case.get('late', ()), issue_at=ia)
         return {'replies': r['replies'], 'error': r['error'], 'off': off['replies']}
 
     def model_lines(self, case):
